@@ -12,25 +12,27 @@ namespace Cello.Exn
 
 /-! ### current code: the walk by index -/
 
-theorem walkIdx_membership (obj : Nat) (hobj : obj ≠ 0) (f : List Nat) :
+theorem walkIdx_membership (obj : Nat) (hobj : obj ≠ 0) (f : List Nat) (h0 : 0 ∉ f) :
     walkIdx obj f = if f.contains obj then .matched else .exhausted := by
   induction f with
   | nil => simp [walkIdx]
   | cons a rest ih =>
-    simp only [walkIdx, hobj, if_false]
+    have ha0 : a ≠ 0 := fun e => h0 (by simp [e])
+    have hr0 : 0 ∉ rest := fun e => h0 (by simp [e])
+    simp only [walkIdx, hobj, ha0, if_false]
     by_cases ha : a = obj
     · simp [ha]
     · have hne : ¬ obj = a := fun e => ha e.symm
-      simp [ha, hne, ih]
+      simp [ha, hne, ih hr0]
 
-/-- **`exception_catch` decides by membership, for every filter** (empty = catch all) — also one that names an object
-    twice. -/
-theorem catchDecision_membership (f : List Nat) (obj : Nat) (hobj : obj ≠ 0) :
+/-- **`exception_catch` decides by membership, for every filter** of non-NULL entries (empty = catch all) — also one
+    that names an object twice. -/
+theorem catchDecision_membership (f : List Nat) (obj : Nat) (hobj : obj ≠ 0) (h0 : 0 ∉ f) :
     catchDecision f obj = if fmatch f obj then .matched else .exhausted := by
   unfold catchDecision fmatch
   by_cases he : f.isEmpty
   · simp [he]
-  · simp [he, walkIdx_membership obj hobj f]
+  · simp [he, walkIdx_membership obj hobj f h0]
 
 theorem walkIdx_ne_hang (obj : Nat) (f : List Nat) : walkIdx obj f ≠ .hang := by
   induction f with
@@ -41,7 +43,9 @@ theorem walkIdx_ne_hang (obj : Nat) (f : List Nat) : walkIdx obj f ≠ .hang := 
     · simp
     · split
       · simp
-      · exact ih
+      · split
+        · simp
+        · exact ih
 
 /-- the walk by index always ends (any filter, any object, NULL included) -/
 theorem catchDecision_ne_hang (f : List Nat) (obj : Nat) : catchDecision f obj ≠ .hang := by
